@@ -54,7 +54,15 @@ class _PyflybyHandler(Handler):
         except (KeyboardInterrupt, SystemExit):
             raise
         except:
-            self.handleError(record)
+            # A logging handler must never raise.  ``Handler.handleError``
+            # itself writes to ``sys.stderr`` and only tolerates ``OSError``;
+            # e.g. a closed ``sys.stderr`` gives ``ValueError``.
+            try:
+                self.handleError(record)
+            except (KeyboardInterrupt, SystemExit):
+                raise
+            except:
+                pass
 
     @contextmanager
     def HookCtx(self, pre, post):
